@@ -35,6 +35,32 @@ pub fn run(cfg: &Cfg, rep: &mut Report) {
     }
     return;
   }
+  // systematic part: for a few scenarios of every family, ALL schedules with at
+  // most `bound` preemptions (forced switches are free)
+  if cfg.mode != "dbg" {
+    let per_family = cfg.n(3, 8);
+    let bound = cfg.n(1, 2);
+    let mut idx = 0usize;
+    for fam in 0..FAMILIES {
+      for k in 0..per_family {
+        idx += 1;
+        if !cfg.mine(idx) {
+          continue;
+        }
+        let mut r = Rng::new(cfg.seed ^ (fam as u64 * 1000 + k as u64 + 77));
+        let mut s = random_scen(&mut r, fam);
+        // keep the enumerated space small: two or three threads, at most three operations each
+        for t in s.threads.iter_mut() {
+          t.truncate(3);
+        }
+        s.workers = s.workers.min(1);
+        let (runs, distinct) = systematic(cfg, rep, &format!("sys:{}:{}", fam, k), &s, bound, cfg.n(4_000, 60_000), &oracle);
+        rep.count("systematic_scenarios", 1);
+        rep.set("thread_scenarios_covered", s.name);
+        let _ = (runs, distinct);
+      }
+    }
+  }
   campaign(
     cfg,
     rep,
